@@ -15,3 +15,6 @@ open LhasaV.Props.C07
 #print axioms handled_members_selected
 #print axioms progress_bar_width
 #print axioms exit_status_cases
+#print axioms test_intact_archive
+#print axioms test_detects_damage
+#print axioms test_detects_truncation
